@@ -13,6 +13,33 @@ func (vm *VM) jsonQuote(s Value) Value {
 		b, _ := json.Marshal(cs)
 		return string(b)
 	}
+	// decimal atoms (digits and '-') are never escaped: quote the runs between them
+	if as := atomsOf(s); hasDec(as) {
+		var out []Atom
+		out = append(out, Atom{Kind: aConc, S: "\""})
+		var run []Atom
+		flush := func() {
+			if len(run) == 0 {
+				return
+			}
+			q := atomsOf(vm.jsonQuote(mkStrRaw(run)))
+			// drop the surrounding quotes of the run
+			q = atomsOf(vm.trimQuotes(q))
+			out = append(out, q...)
+			run = nil
+		}
+		for _, a := range as {
+			if a.Kind == aDec {
+				flush()
+				out = append(out, a)
+				continue
+			}
+			run = append(run, a)
+		}
+		flush()
+		out = append(out, Atom{Kind: aConc, S: "\""})
+		return mkStr(out)
+	}
 	bs := strBytes(s)
 	out := []Value{int64('"')}
 	emit := func(str string) {
@@ -106,3 +133,12 @@ func (vm *VM) jsonQuote(s Value) Value {
 }
 
 var _ = fmt.Sprint
+
+// trimQuotes removes the first and last byte (the quotes jsonQuote put around a run).
+func (vm *VM) trimQuotes(q []Atom) Value {
+	bs := strBytes(mkStrRaw(q))
+	if len(bs) < 2 {
+		vmErr("internal: jsonQuote produced a string without quotes")
+	}
+	return strFromBytes(bs[1 : len(bs)-1])
+}
